@@ -15,10 +15,11 @@
 
   One theorem `K_layout` per kind:   K.marshalM v = .ok (bs, v')  →  LayoutHolds "K" v bs
   for EVERY value v (no hypothesis besides the encoder succeeding; pads, lengths, children are arbitrary):
-    standard actions   actionOutput / actionSetqueue / actionGroup / actionPush / actionPopMpls _layout
+    standard actions   actionOutput / actionSetqueue / actionGroup / actionPush / actionPopMpls / actionMplsTtl /
+                       actionNwTtl _layout (the TTL at 4, then three zero bytes: `actionMplsTtl_shape`, `actionNwTtl_shape`)
     Nicira actions     nxResubmit / nxResubmitTable / nxRegMove / nxRegLoad / nxOutputReg / nxConjunction / nxController /
                        nxDecTTLCntIDs / nxLearn / nxConnTrack / nxCTNAT _layout
-    instructions       instrGotoTable / instrWriteMetadata _layout
+    instructions       instrGotoTable / instrWriteMetadata / instrMeter _layout (meter id at 4, big-endian; `instrMeter_shape`)
     messages           flowMod / groupMod / bucket / packetOut / portMod / switchConfig / multipartRequest /
                        flowStatsRequest / aggregateStatsRequest _layout  (bodies relative to the body: `multipartRequest_body`)
     vendor payloads    controllerID / tlvTableMod / tlvTableMap / bundleControl / bundleAdd _layout (`vendorHeader_payload`:
@@ -27,8 +28,9 @@
 
   Where a row is FALSE in the model a counterexample is proved instead (`…_layout_counterexample`):
     * PortStatsRequest.PortNo / QueueStatsRequest.PortNo  — written in 16 bits (known finding; `…_actual` say what is true),
-    * InstrMeter.MeterId                                  — stub type, never written (known finding),
-    * ActionMplsTtl.MplsTtl / ActionNwTtl.NwTtl           — never written: the set-TTL actions encode to 4 header bytes,
+    (the former counterexamples about InstrMeter.MeterId and ActionMplsTtl.MplsTtl / ActionNwTtl.NwTtl — "stub kinds
+     encoded by the promoted 4-byte header method" — are gone: the library gives these kinds their own 8-byte codecs and the
+     rows hold, `instrMeter_layout`, `actionMplsTtl_layout`, `actionNwTtl_layout`),
     * NXActionCTNAT: a range setter called with nil sets the presence bit but emits nothing
       (`nxCTNAT_presence_counterexample`).
   Further:
@@ -150,29 +152,87 @@ theorem actionPopMpls_layout (v : V) (bs : Bytes) (v' : V) (hm : ActionPopMpls.m
     lay_chunk
   · exact absurd hm (by simp)
 
-/-- GENUINE DEFECT (layout row ActionMplsTtl.MplsTtl at 4 is FALSE): the set-MPLS-TTL action is encoded by the
-    promoted ActionHeader method — 4 bytes, the TTL is never written.  Every such action with a non-zero TTL violates
-    the row: nothing at all is at offset 4. -/
-theorem actionMplsTtl_layout_counterexample (ty ln ttl : Nat) (pad : Bytes) (httl : ttl % 256 ≠ 0) :
-    ∃ bs v', ActionMplsTtl.marshalM (.obj "ActionMplsTtl" [ActionHeader.mk ty ln, .num ttl, .bytes pad]) = .ok (bs, v') ∧
-      bs.length = 4 ∧ ¬ LayoutHolds "ActionMplsTtl" (.obj "ActionMplsTtl" [ActionHeader.mk ty ln, .num ttl, .bytes pad]) bs := by
-  refine ⟨_, _, rfl, rfl, ?_⟩
-  intro h
-  have h4 : beAt (be16 (n16 ty) ++ be16 (n16 ln)) 4 1 = ttl % 2 ^ (8 * 1) :=
-    h ⟨"MplsTtl", 4, 1, .num⟩ (by simp [layoutOf, Spec.layouts, List.lookup])
-  simp [beAt, be16] at h4
-  omega
+/-- ActionMplsTtl (set MPLS TTL): the TTL at 4 (8 bits) — for EVERY value the encoder accepts (the library now gives the
+    action its own 8-byte codec; the former counterexample `actionMplsTtl_layout_counterexample`, "4 header bytes, the TTL is
+    never written", no longer holds) -/
+theorem actionMplsTtl_layout (v : V) (bs : Bytes) (v' : V) (hm : ActionMplsTtl.marshalM v = .ok (bs, v')) :
+    LayoutHolds "ActionMplsTtl" v bs := by
+  unfold ActionMplsTtl.marshalM at hm
+  split at hm
+  · rename_i h t p
+    obtain ⟨hb, hhb, h2⟩ := bind_ok_inv _ _ _ hm
+    obtain ⟨rfl, _⟩ := same_ok _ _ _ _ h2
+    have hl := ActionHeader.bytes_length _ _ hhb
+    have hbs : hb ++ [n8 t, 0, 0, 0] = [hb, [n8 t]].flatten ++ [0, 0, 0] := by simp
+    rw [hbs]
+    intro fl hfl
+    lay_rows hfl
+    subst hfl
+    lay_chunk
+  · exact absurd hm (by simp)
 
-/-- GENUINE DEFECT (layout row ActionNwTtl.NwTtl at 4 is FALSE): as ActionMplsTtl — 4 header bytes, the TTL is never written -/
-theorem actionNwTtl_layout_counterexample (ty ln ttl : Nat) (pad : Bytes) (httl : ttl % 256 ≠ 0) :
+/-- ActionMplsTtl, whole shape: 8 bytes — the 4 header bytes, the TTL, then exactly three zero bytes of padding (whatever the
+    value's `pad` field holds) -/
+theorem actionMplsTtl_shape (v : V) (bs : Bytes) (v' : V) (hm : ActionMplsTtl.marshalM v = .ok (bs, v')) :
+    bs.length = 8 ∧ bs.drop 5 = [0, 0, 0] := by
+  unfold ActionMplsTtl.marshalM at hm
+  split at hm
+  · rename_i h t p
+    obtain ⟨hb, hhb, h2⟩ := bind_ok_inv _ _ _ hm
+    obtain ⟨rfl, _⟩ := same_ok _ _ _ _ h2
+    have hl := ActionHeader.bytes_length _ _ hhb
+    constructor
+    · simp [hl]
+    · rw [List.drop_append, List.drop_eq_nil_of_le (by omega), hl]; rfl
+  · exact absurd hm (by simp)
+
+/-- the former defect witnesses (any header, any non-zero TTL, any pad): the TTL byte now IS at offset 4 -/
+theorem actionMplsTtl_ttl_at_4 (ty ln ttl : Nat) (pad : Bytes) :
+    ∃ bs v', ActionMplsTtl.marshalM (.obj "ActionMplsTtl" [ActionHeader.mk ty ln, .num ttl, .bytes pad]) = .ok (bs, v') ∧
+      bs.length = 8 ∧ beAt bs 4 1 = ttl % 256 ∧ bs.drop 5 = [0, 0, 0] := by
+  refine ⟨_, _, rfl, rfl, ?_, rfl⟩
+  simp [beAt, be16, n8, UInt8.toNat_ofNat']
+
+/-- ActionNwTtl (set IP TTL): the TTL at 4 (8 bits) — for EVERY value the encoder accepts (the library now gives the
+    action its own 8-byte codec; the former counterexample `actionNwTtl_layout_counterexample`, "4 header bytes, the TTL is
+    never written", no longer holds) -/
+theorem actionNwTtl_layout (v : V) (bs : Bytes) (v' : V) (hm : ActionNwTtl.marshalM v = .ok (bs, v')) :
+    LayoutHolds "ActionNwTtl" v bs := by
+  unfold ActionNwTtl.marshalM at hm
+  split at hm
+  · rename_i h t p
+    obtain ⟨hb, hhb, h2⟩ := bind_ok_inv _ _ _ hm
+    obtain ⟨rfl, _⟩ := same_ok _ _ _ _ h2
+    have hl := ActionHeader.bytes_length _ _ hhb
+    have hbs : hb ++ [n8 t, 0, 0, 0] = [hb, [n8 t]].flatten ++ [0, 0, 0] := by simp
+    rw [hbs]
+    intro fl hfl
+    lay_rows hfl
+    subst hfl
+    lay_chunk
+  · exact absurd hm (by simp)
+
+/-- ActionNwTtl, whole shape: 8 bytes — the 4 header bytes, the TTL, then exactly three zero bytes of padding (whatever the
+    value's `pad` field holds) -/
+theorem actionNwTtl_shape (v : V) (bs : Bytes) (v' : V) (hm : ActionNwTtl.marshalM v = .ok (bs, v')) :
+    bs.length = 8 ∧ bs.drop 5 = [0, 0, 0] := by
+  unfold ActionNwTtl.marshalM at hm
+  split at hm
+  · rename_i h t p
+    obtain ⟨hb, hhb, h2⟩ := bind_ok_inv _ _ _ hm
+    obtain ⟨rfl, _⟩ := same_ok _ _ _ _ h2
+    have hl := ActionHeader.bytes_length _ _ hhb
+    constructor
+    · simp [hl]
+    · rw [List.drop_append, List.drop_eq_nil_of_le (by omega), hl]; rfl
+  · exact absurd hm (by simp)
+
+/-- the former defect witnesses (any header, any non-zero TTL, any pad): the TTL byte now IS at offset 4 -/
+theorem actionNwTtl_ttl_at_4 (ty ln ttl : Nat) (pad : Bytes) :
     ∃ bs v', ActionNwTtl.marshalM (.obj "ActionNwTtl" [ActionHeader.mk ty ln, .num ttl, .bytes pad]) = .ok (bs, v') ∧
-      bs.length = 4 ∧ ¬ LayoutHolds "ActionNwTtl" (.obj "ActionNwTtl" [ActionHeader.mk ty ln, .num ttl, .bytes pad]) bs := by
-  refine ⟨_, _, rfl, rfl, ?_⟩
-  intro h
-  have h4 : beAt (be16 (n16 ty) ++ be16 (n16 ln)) 4 1 = ttl % 2 ^ (8 * 1) :=
-    h ⟨"NwTtl", 4, 1, .num⟩ (by simp [layoutOf, Spec.layouts, List.lookup])
-  simp [beAt, be16] at h4
-  omega
+      bs.length = 8 ∧ beAt bs 4 1 = ttl % 256 ∧ bs.drop 5 = [0, 0, 0] := by
+  refine ⟨_, _, rfl, rfl, ?_, rfl⟩
+  simp [beAt, be16, n8, UInt8.toNat_ofNat']
 
 /-! ### Nicira extension actions -/
 
@@ -513,18 +573,45 @@ theorem instrWriteMetadata_layout (v : V) (bs : Bytes) (v' : V) (hm : InstrWrite
     rcases hfl with rfl | rfl <;> lay_chunk
   · exact absurd hm (by simp)
 
-/-- KNOWN FINDING (layout row InstrMeter.MeterId at 4 is FALSE — the type is a stub): the meter instruction is encoded by
-    the promoted InstrHeader method, 4 bytes; the meter id is never written.  Every meter instruction with a non-zero
-    id violates the row. -/
-theorem instrMeter_layout_counterexample (ty ln mid : Nat) (hmid : mid % 2 ^ 32 ≠ 0) :
+/-- InstrMeter: meter_id at 4 (32 bits, big-endian) — for EVERY value the encoder accepts (the library now gives the
+    instruction its own 8-byte codec; the former counterexample `instrMeter_layout_counterexample`, "4 header bytes, the
+    meter id is never written", no longer holds) -/
+theorem instrMeter_layout (v : V) (bs : Bytes) (v' : V) (hm : InstrMeter.marshalM v = .ok (bs, v')) :
+    LayoutHolds "InstrMeter" v bs := by
+  unfold InstrMeter.marshalM at hm
+  split at hm
+  · rename_i h m
+    obtain ⟨hb, hhb, h2⟩ := bind_ok_inv _ _ _ hm
+    obtain ⟨rfl, _⟩ := same_ok _ _ _ _ h2
+    have hl := InstrHeader.bytes_length _ _ hhb
+    have hbs : hb ++ be32 (n32 m) = [hb, be32 (n32 m)].flatten ++ [] := by simp
+    rw [hbs]
+    intro fl hfl
+    lay_rows hfl
+    subst hfl
+    lay_chunk
+  · exact absurd hm (by simp)
+
+/-- InstrMeter, whole shape: 8 bytes — the 4 header bytes, then the meter id and nothing else -/
+theorem instrMeter_shape (v : V) (bs : Bytes) (v' : V) (hm : InstrMeter.marshalM v = .ok (bs, v')) :
+    bs.length = 8 := by
+  unfold InstrMeter.marshalM at hm
+  split at hm
+  · rename_i h m
+    obtain ⟨hb, hhb, h2⟩ := bind_ok_inv _ _ _ hm
+    obtain ⟨rfl, _⟩ := same_ok _ _ _ _ h2
+    have hl := InstrHeader.bytes_length _ _ hhb
+    simp [hl, be32]
+  · exact absurd hm (by simp)
+
+/-- the former defect witnesses (any header, any meter id): the meter id now IS at offset 4, big-endian -/
+theorem instrMeter_id_at_4 (ty ln mid : Nat) :
     ∃ bs v', InstrMeter.marshalM (.obj "InstrMeter" [.obj "InstrHeader" [.num ty, .num ln], .num mid]) = .ok (bs, v') ∧
-      bs.length = 4 ∧ ¬ LayoutHolds "InstrMeter" (.obj "InstrMeter" [.obj "InstrHeader" [.num ty, .num ln], .num mid]) bs := by
+      bs.length = 8 ∧ beAt bs 4 4 = mid % 2 ^ 32 := by
   refine ⟨_, _, rfl, rfl, ?_⟩
-  intro h
-  have h4 : beAt (be16 (n16 ty) ++ be16 (n16 ln)) 4 4 = mid % 2 ^ (8 * 4) :=
-    h ⟨"MeterId", 4, 4, .num⟩ (by simp [layoutOf, Spec.layouts, List.lookup])
-  simp [beAt, be16] at h4
-  omega
+  have h := beAt_nth [be16 (n16 ty) ++ be16 (n16 ln), be32 (n32 mid)] [] 1 _ rfl 4 rfl
+  simp only [List.flatten_cons, List.flatten_nil, List.append_nil] at h
+  rw [h, beAt_be32]; exact lay_n32_toNat mid
 
 /-! ### group-mod and buckets -/
 
@@ -1438,12 +1525,11 @@ theorem multipartRequest_layout' (v : V) (bs : Bytes) (v' : V) (hm : MultipartRe
     LayoutHolds "MultipartRequest" v bs := multipartRequest_layout _ _ v bs v' hm
 
 /-- THE ACTION INTERFACE: whatever action a value holds (any kind, any field values, conntrack actions nested to any
-    depth below the encoder's bound) — except the two TTL setters, whose row is false
-    (`actionMplsTtl_layout_counterexample`, `actionNwTtl_layout_counterexample`) — every row the specification table
-    has for its kind holds for the bytes `Action.MarshalBinary()` returns -/
-theorem action_layout (v : V) (bs : Bytes) (v' : V) (hm : Action.marshalM v = .ok (bs, v'))
-    (hk : v.kind ≠ "ActionMplsTtl" ∧ v.kind ≠ "ActionNwTtl") : LayoutHolds v.kind v bs := by
-  unfold Action.marshalM Action.encDepth at hm
+    depth below the encoder's bound; the two TTL setters included, now that they have their own codec) — every row the
+    specification table has for its kind holds for the bytes `Action.MarshalBinary()` returns -/
+theorem action_layout (v : V) (bs : Bytes) (v' : V) (hm : Action.marshalM v = .ok (bs, v')) :
+    LayoutHolds v.kind v bs := by
+  unfold Action.marshalM at hm
   unfold Action.marshalD at hm
   split at hm
   · rename_i hct
@@ -1453,8 +1539,6 @@ theorem action_layout (v : V) (bs : Bytes) (v' : V) (hm : Action.marshalM v = .o
     split at hm <;> rename_i hkind
     all_goals first
       | exact absurd hm (by simp)
-      | exact absurd hkind hk.1
-      | exact absurd hkind hk.2
       | (rw [hkind]
          first
            | exact actionOutput_layout v bs v' hm
@@ -1462,6 +1546,8 @@ theorem action_layout (v : V) (bs : Bytes) (v' : V) (hm : Action.marshalM v = .o
            | exact actionGroup_layout v bs v' hm
            | exact actionPush_layout v bs v' hm
            | exact actionPopMpls_layout v bs v' hm
+           | exact actionMplsTtl_layout v bs v' hm
+           | exact actionNwTtl_layout v bs v' hm
            | exact nxConjunction_layout v bs v' hm
            | exact nxRegLoad_layout v bs v' hm
            | exact nxRegMove_layout v bs v' hm
@@ -1474,16 +1560,16 @@ theorem action_layout (v : V) (bs : Bytes) (v' : V) (hm : Action.marshalM v = .o
            | exact nxController_layout v bs v' hm
            | (intro fl hfl; exact absurd hfl (by simp [layoutOf, Spec.layouts, List.lookup])))
 
-/-- THE INSTRUCTION INTERFACE: every row of the instruction's kind holds — except for the stub InstrMeter
-    (`instrMeter_layout_counterexample`) -/
-theorem instruction_layout (v : V) (bs : Bytes) (v' : V) (hm : Instruction.marshalM v = .ok (bs, v'))
-    (hk : v.kind ≠ "InstrMeter") : LayoutHolds v.kind v bs := by
+/-- THE INSTRUCTION INTERFACE: every row of the instruction's kind holds (the meter instruction included, now that it has
+    its own codec) -/
+theorem instruction_layout (v : V) (bs : Bytes) (v' : V) (hm : Instruction.marshalM v = .ok (bs, v')) :
+    LayoutHolds v.kind v bs := by
   unfold Instruction.marshalM at hm
   split at hm <;> rename_i hkind
   · rw [hkind]; exact instrGotoTable_layout v bs v' hm
   · rw [hkind]; exact instrWriteMetadata_layout v bs v' hm
   · rw [hkind]; intro fl hfl; exact absurd hfl (by simp [layoutOf, Spec.layouts, List.lookup])
-  · exact absurd hkind hk
+  · rw [hkind]; exact instrMeter_layout v bs v' hm
   · exact absurd hm (by simp)
 
 /-! ### the hypotheses are satisfiable: every encoder succeeds on a value built by its constructor (or a literal value
@@ -1494,6 +1580,11 @@ example : ∃ bs v', ActionSetqueue.marshalM (ActionSetqueue.new 7) = .ok (bs, v
 example : ∃ bs v', ActionGroup.marshalM (ActionGroup.new 7) = .ok (bs, v') := ⟨_, _, rfl⟩
 example : ∃ bs v', ActionPush.marshalM (ActionPush.new Gen.openflow13.ActionType_PushVlan 0x8100) = .ok (bs, v') := ⟨_, _, rfl⟩
 example : ∃ bs v', ActionPopMpls.marshalM (ActionPopMpls.new 0x0800) = .ok (bs, v') := ⟨_, _, rfl⟩
+example : ActionMplsTtl.marshalM (ActionMplsTtl.new 64) = .ok ([0, 15, 0, 8, 64, 0, 0, 0], ActionMplsTtl.new 64) := rfl
+example : ActionNwTtl.marshalM (ActionNwTtl.new 64) = .ok ([0, 23, 0, 8, 64, 0, 0, 0], ActionNwTtl.new 64) := rfl
+example : InstrMeter.marshalM (InstrMeter.new 0x11223344) = .ok ([0, 6, 0, 8, 0x11, 0x22, 0x33, 0x44], InstrMeter.new 0x11223344) := rfl
+example : ∃ bs v', Action.marshalM (ActionNwTtl.new 64) = .ok (bs, v') := ⟨_, _, rfl⟩
+example : ∃ bs v', Instruction.marshalM (InstrMeter.new 7) = .ok (bs, v') := ⟨_, _, rfl⟩
 example : ∃ v bs v', NXActionResubmit.new 5 = .ok v ∧ NXActionResubmit.marshalM v = .ok (bs, v') := ⟨_, _, _, rfl, rfl⟩
 example : ∃ bs v', NXActionResubmitTable.marshalM (NXActionResubmitTable.new Gen.openflow13.NXAST_RESUBMIT_TABLE 5 9 0) = .ok (bs, v') :=
   ⟨_, _, rfl⟩
